@@ -76,7 +76,9 @@ def run(tier, replay=None):
             it = {"insn": name, "part": i, "src0": text, "tree": tree}
             # elaboration is independent of the compiler's verdict
             try:
+                opt0 = elab.OPTIONAL_HITS
                 ast = elab.Elab(sub_sigs, macro_sigs).program(tree)
+                it["optional_dialect"] = elab.OPTIONAL_HITS != opt0   # e.g. `unsigned long long`: may be rejected, must be right if accepted
                 if semcheck.prog_sx(ast) is None:
                     raise elab.Unmodelled("construct outside the Lean AST")
                 it["ast"] = ast
@@ -111,7 +113,7 @@ def run(tier, replay=None):
             del it["ast"]
     # ---- within the modelled dialect the compiler must accept
     for it in items:
-        if "ast" in it and it["status"] != "ok":
+        if "ast" in it and it["status"] != "ok" and not it.get("optional_dialect"):
             viol.append({"what": f"{it['insn']} part {it['part']} stays within the supported dialect but is rejected: {it['status']} {it.get('exc')}",
                          "instruction": it["insn"], "program": it["src0"]})
     # ---- per-output checks on every accepted part (raw text, Lean checkers)
